@@ -325,3 +325,140 @@ pub assume_specification<T, A: std::alloc::Allocator, F: core::ops::FnMut() -> T
         forall|i: int| old(v)@.len() <= i < new_len ==> f.ensures((), #[trigger] final(v)@[i]),
 ;
 // @end
+
+// @section tilemap_raster_spec
+/// C08/C02: what compositing one tilemap cel onto a canvas must produce: the canvas pixel (cx, cy) that lies
+/// `d = (cx - cel.x, cy - cel.y)` into the tile grid shows pixel `d % tile size` of the tile whose id is stored at
+/// grid position `d / tile size`, blended over the old canvas pixel; every other canvas pixel is unchanged.
+/// (Tile transform flags are documented as unsupported and are ignored by the library.)
+pub open spec fn tm_covered(cel: &CelCommon, tm: &TilemapData, ts: &Tileset, cx: int, cy: int) -> bool {
+    let tw = ts.tile_size.width as int;
+    let th = ts.tile_size.height as int;
+    tw > 0 && th > 0 && 0 <= cx - cel.x < tw * (tm.width as int) && 0 <= cy - cel.y < th * (tm.height as int)
+}
+pub open spec fn tm_src_index(cel: &CelCommon, tm: &TilemapData, ts: &Tileset, cx: int, cy: int) -> int {
+    let tw = ts.tile_size.width as int;
+    let th = ts.tile_size.height as int;
+    let dx = cx - cel.x;
+    let dy = cy - cel.y;
+    (tm.tiles.0[(dy / th) * (tm.width as int) + dx / tw].id.0 as int) * (tw * th) + (dy % th) * tw + dx % tw
+}
+pub open spec fn tm_cel_pixel(old_img: &RgbaImage, cel: &CelCommon, tm: &TilemapData, ts: &Tileset, pixels: Seq<Rgba<u8>>, mode: BlendMode, outer: u8, cx: int, cy: int) -> Rgba<u8> {
+    if tm_covered(cel, tm, ts, cx, cy) {
+        spec_blend(mode, old_img.at(cx, cy), pixels[tm_src_index(cel, tm, ts, cx, cy)], spec_round8(outer as int, cel.opacity as int) as u8)
+    } else {
+        old_img.at(cx, cy)
+    }
+}
+/// loop bookkeeping: has the rasteriser already passed canvas pixel (cx, cy) when it stands at
+/// tile row ty, tile column tx, pixel row py, pixel column px (lexicographic order of the four loops)?
+pub open spec fn tm_done(cel: &CelCommon, tm: &TilemapData, ts: &Tileset, cx: int, cy: int, ty: int, tx: int, py: int, px: int) -> bool {
+    let tw = ts.tile_size.width as int;
+    let th = ts.tile_size.height as int;
+    let dx = cx - cel.x;
+    let dy = cy - cel.y;
+    tm_covered(cel, tm, ts, cx, cy) && (
+        dy / th < ty || (dy / th == ty && (
+            dx / tw < tx || (dx / tw == tx && (
+                dy % th < py || (dy % th == py && dx % tw < px))))))
+}
+pub proof fn lemma_tm_pos(d: int, t: int, p: int, n: int)
+    requires 0 < d, 0 <= p < d, 0 <= t < n,
+    ensures (t * d + p) / d == t, (t * d + p) % d == p, 0 <= t * d + p < d * n,
+{
+    vstd::arithmetic::div_mod::lemma_fundamental_div_mod_converse(t * d + p, d, t, p);
+    assert(t * d + p < d * n) by (nonlinear_arith) requires 0 < d, 0 <= p < d, 0 <= t < n;
+    assert(0 <= t * d + p) by (nonlinear_arith) requires 0 < d, 0 <= p, 0 <= t;
+}
+pub proof fn lemma_tm_unpos(x: int, d: int, n: int)
+    requires 0 < d, 0 <= x < d * n,
+    ensures x == (x / d) * d + x % d, 0 <= x % d < d, 0 <= x / d < n,
+{
+    vstd::arithmetic::div_mod::lemma_fundamental_div_mod(x, d);
+    vstd::arithmetic::div_mod::lemma_mod_bound(x, d);
+    assert(d * (x / d) == (x / d) * d) by (nonlinear_arith);
+    assert(0 <= x / d < n) by (nonlinear_arith) requires 0 < d, 0 <= x < d * n, x == d * (x / d) + x % d, 0 <= x % d < d;
+}
+/// one step of the innermost loop marks exactly the canvas pixel it writes
+pub proof fn lemma_tm_step(cel: &CelCommon, tm: &TilemapData, ts: &Tileset, cx: int, cy: int, ty: int, tx: int, py: int, px: int)
+    requires
+        0 <= ty < tm.height, 0 <= tx < tm.width, 0 <= py < ts.tile_size.height, 0 <= px < ts.tile_size.width,
+    ensures
+        tm_done(cel, tm, ts, cx, cy, ty, tx, py, px + 1) == (tm_done(cel, tm, ts, cx, cy, ty, tx, py, px)
+            || (cx == tx * (ts.tile_size.width as int) + px + cel.x && cy == ty * (ts.tile_size.height as int) + py + cel.y)),
+        (cx == tx * (ts.tile_size.width as int) + px + cel.x && cy == ty * (ts.tile_size.height as int) + py + cel.y) ==> {
+            &&& !tm_done(cel, tm, ts, cx, cy, ty, tx, py, px)
+            &&& tm_covered(cel, tm, ts, cx, cy)
+            &&& (cx - cel.x) / (ts.tile_size.width as int) == tx && (cx - cel.x) % (ts.tile_size.width as int) == px
+            &&& (cy - cel.y) / (ts.tile_size.height as int) == ty && (cy - cel.y) % (ts.tile_size.height as int) == py
+        },
+{
+    let tw = ts.tile_size.width as int;
+    let th = ts.tile_size.height as int;
+    lemma_tm_pos(tw, tx, px, tm.width as int);
+    lemma_tm_pos(th, ty, py, tm.height as int);
+    if tm_covered(cel, tm, ts, cx, cy) {
+        lemma_tm_unpos(cx - cel.x, tw, tm.width as int);
+        lemma_tm_unpos(cy - cel.y, th, tm.height as int);
+    }
+}
+/// leaving a loop: the position (.., n) of the inner loop is the position (.. + 1, 0) of the outer one
+pub proof fn lemma_tm_carry(cel: &CelCommon, tm: &TilemapData, ts: &Tileset, cx: int, cy: int, ty: int, tx: int, py: int)
+    ensures
+        tm_done(cel, tm, ts, cx, cy, ty, tx, py, ts.tile_size.width as int) == tm_done(cel, tm, ts, cx, cy, ty, tx, py + 1, 0),
+        tm_done(cel, tm, ts, cx, cy, ty, tx, ts.tile_size.height as int, 0) == tm_done(cel, tm, ts, cx, cy, ty, tx + 1, 0, 0),
+        tm_done(cel, tm, ts, cx, cy, ty, tm.width as int, 0, 0) == tm_done(cel, tm, ts, cx, cy, ty + 1, 0, 0, 0),
+        !tm_done(cel, tm, ts, cx, cy, 0, 0, 0, 0),
+        tm_done(cel, tm, ts, cx, cy, tm.height as int, 0, 0, 0) == tm_covered(cel, tm, ts, cx, cy),
+{
+    let tw = ts.tile_size.width as int;
+    let th = ts.tile_size.height as int;
+    if tm_covered(cel, tm, ts, cx, cy) {
+        lemma_tm_unpos(cx - cel.x, tw, tm.width as int);
+        lemma_tm_unpos(cy - cel.y, th, tm.height as int);
+    }
+}
+pub proof fn lemma_tm_step_all(cel: &CelCommon, tm: &TilemapData, ts: &Tileset, ty: int, tx: int, py: int, px: int)
+    requires
+        0 <= ty < tm.height, 0 <= tx < tm.width, 0 <= py < ts.tile_size.height, 0 <= px < ts.tile_size.width,
+    ensures
+        forall|cx: int, cy: int| #![trigger tm_done(cel, tm, ts, cx, cy, ty, tx, py, px + 1)]
+            tm_done(cel, tm, ts, cx, cy, ty, tx, py, px + 1) == (tm_done(cel, tm, ts, cx, cy, ty, tx, py, px)
+                || (cx == tx * (ts.tile_size.width as int) + px + cel.x && cy == ty * (ts.tile_size.height as int) + py + cel.y)),
+        ({
+            let cx = tx * (ts.tile_size.width as int) + px + cel.x;
+            let cy = ty * (ts.tile_size.height as int) + py + cel.y;
+            &&& !tm_done(cel, tm, ts, cx, cy, ty, tx, py, px)
+            &&& tm_covered(cel, tm, ts, cx, cy)
+            &&& (cx - cel.x) / (ts.tile_size.width as int) == tx && (cx - cel.x) % (ts.tile_size.width as int) == px
+            &&& (cy - cel.y) / (ts.tile_size.height as int) == ty && (cy - cel.y) % (ts.tile_size.height as int) == py
+        }),
+{
+    assert forall|cx: int, cy: int| #![trigger tm_done(cel, tm, ts, cx, cy, ty, tx, py, px + 1)]
+        tm_done(cel, tm, ts, cx, cy, ty, tx, py, px + 1) == (tm_done(cel, tm, ts, cx, cy, ty, tx, py, px)
+            || (cx == tx * (ts.tile_size.width as int) + px + cel.x && cy == ty * (ts.tile_size.height as int) + py + cel.y)) by {
+        lemma_tm_step(cel, tm, ts, cx, cy, ty, tx, py, px);
+    }
+    lemma_tm_step(cel, tm, ts, tx * (ts.tile_size.width as int) + px + cel.x, ty * (ts.tile_size.height as int) + py + cel.y, ty, tx, py, px);
+}
+pub proof fn lemma_tm_carry_all(cel: &CelCommon, tm: &TilemapData, ts: &Tileset, ty: int, tx: int, py: int)
+    ensures
+        forall|cx: int, cy: int| #![trigger tm_done(cel, tm, ts, cx, cy, ty, tx, py + 1, 0)]
+            tm_done(cel, tm, ts, cx, cy, ty, tx, py, ts.tile_size.width as int) == tm_done(cel, tm, ts, cx, cy, ty, tx, py + 1, 0),
+        forall|cx: int, cy: int| #![trigger tm_done(cel, tm, ts, cx, cy, ty, tx + 1, 0, 0)]
+            tm_done(cel, tm, ts, cx, cy, ty, tx, ts.tile_size.height as int, 0) == tm_done(cel, tm, ts, cx, cy, ty, tx + 1, 0, 0),
+        forall|cx: int, cy: int| #![trigger tm_done(cel, tm, ts, cx, cy, ty + 1, 0, 0, 0)]
+            tm_done(cel, tm, ts, cx, cy, ty, tm.width as int, 0, 0) == tm_done(cel, tm, ts, cx, cy, ty + 1, 0, 0, 0),
+        forall|cx: int, cy: int| !(#[trigger] tm_done(cel, tm, ts, cx, cy, 0, 0, 0, 0)),
+        forall|cx: int, cy: int| #[trigger] tm_done(cel, tm, ts, cx, cy, tm.height as int, 0, 0, 0) == tm_covered(cel, tm, ts, cx, cy),
+{
+    assert forall|cx: int, cy: int| #![trigger tm_done(cel, tm, ts, cx, cy, ty, tx, py + 1, 0)]
+        tm_done(cel, tm, ts, cx, cy, ty, tx, py, ts.tile_size.width as int) == tm_done(cel, tm, ts, cx, cy, ty, tx, py + 1, 0) by { lemma_tm_carry(cel, tm, ts, cx, cy, ty, tx, py); }
+    assert forall|cx: int, cy: int| #![trigger tm_done(cel, tm, ts, cx, cy, ty, tx + 1, 0, 0)]
+        tm_done(cel, tm, ts, cx, cy, ty, tx, ts.tile_size.height as int, 0) == tm_done(cel, tm, ts, cx, cy, ty, tx + 1, 0, 0) by { lemma_tm_carry(cel, tm, ts, cx, cy, ty, tx, py); }
+    assert forall|cx: int, cy: int| #![trigger tm_done(cel, tm, ts, cx, cy, ty + 1, 0, 0, 0)]
+        tm_done(cel, tm, ts, cx, cy, ty, tm.width as int, 0, 0) == tm_done(cel, tm, ts, cx, cy, ty + 1, 0, 0, 0) by { lemma_tm_carry(cel, tm, ts, cx, cy, ty, tx, py); }
+    assert forall|cx: int, cy: int| !(#[trigger] tm_done(cel, tm, ts, cx, cy, 0, 0, 0, 0)) by { lemma_tm_carry(cel, tm, ts, cx, cy, ty, tx, py); }
+    assert forall|cx: int, cy: int| #[trigger] tm_done(cel, tm, ts, cx, cy, tm.height as int, 0, 0, 0) == tm_covered(cel, tm, ts, cx, cy) by { lemma_tm_carry(cel, tm, ts, cx, cy, ty, tx, py); }
+}
+// @end
